@@ -13,7 +13,7 @@ from ..oracle import spec
 
 FMAX = sys.float_info.max
 POOL = [0, 1, -1, 2, 3, 7, 10, 2 ** 53 - 1, 2 ** 53, 2 ** 53 + 1, 2 ** 53 + 2, -(2 ** 53) - 1, 2 ** 63, 2 ** 64 + 1,
-        10 ** 20, 10 ** 30 + 1, 10 ** 308, 2 ** 1024, 2 ** 1024 + 1, 10 ** 400, -10 ** 400, 10 ** 400 + 1, 3 * 10 ** 1000,
+        10 ** 20, 10 ** 30 + 1, 10 ** 308, 2 ** 1024, 2 ** 1024 + 1, 2 ** 1024 - 1, 2 ** 1024 - 2 ** 970, 10 ** 400, -10 ** 400, 10 ** 400 + 1, 3 * 10 ** 1000,
         0.0, -0.0, 1.0, -1.0, 2.0, 0.5, 0.25, 1.5, 2.5, 0.1, 0.3, 0.2, 1.1, 7.5, float(2 ** 53), float(2 ** 53) + 2.0,
         9007199254740993.0, 1e20, 1e22, 1e23, 1e300, -1e300, 1e308, FMAX, -FMAX, 5e-324, -5e-324, 1e-320,
         2.0 ** -1022, 2.0 ** -1074, 2.0 ** -30, 2.0 ** 40, 2.0 ** 1023, 3.0 * 2.0 ** -1074, 1e-7, 123456789.125,
